@@ -49,14 +49,29 @@ class Pfx:
         self._c = ctx
         self._p = prefix
 
+    def _sig(self, signature):
+        # answers of single query kinds ("q:<kind>[:order]") on the input object are one symptom: "input:connectivity"
+        if self._p == "input:" and signature.startswith("q:"):
+            return "input:connectivity"
+        return self._p + signature
+
     def check(self, cond, signature, message="", **detail):
-        return self._c.check(cond, self._p + signature, message, **detail)
+        return self._c.check(cond, self._sig(signature), message, **detail)
 
     def fail(self, signature, message, **detail):
-        return self._c.fail(self._p + signature, message, **detail)
+        return self._c.fail(self._sig(signature), message, **detail)
 
     def call(self, signature, f, *a, **kw):
-        return self._c.call(self._p + signature, f, *a, **kw)
+        try:
+            return True, f(*a, **kw)
+        except Exception as e:
+            from vlib.runner import Violation, Inconclusive, HarnessError, innermost_mouette_frame
+            if isinstance(e, (Violation, HarnessError)):
+                raise
+            where = innermost_mouette_frame(e.__traceback__)
+            self._c.fail(self._sig(signature) + ("" if self._sig(signature) == "input:connectivity" else ":raises"),
+                         f"{signature}: {type(e).__name__}: {e} (at {where})", exc=type(e).__name__)
+            return False, None
 
     def label(self, *a):
         return self._c.label(*a)
@@ -630,7 +645,7 @@ def fn_surface(case, ctx):
             n = 2 if b == 0 else 1
         if name == "sub6":
             n = 2 if b == 0 else 1
-        if sum(max(1, len(f)) for f in cur.F) * growth(name, n) > MAX_FACES:
+        if sum(1 if len(f) == 3 else len(f) for f in cur.F) * growth(name, n) > MAX_FACES:
             ctx.label("op-skipped-size")
             continue
         what = f"op #{k} {name}({arg if arg is not None else (n if name in ('loop', 'sub6') else '')}) after {done}"
@@ -654,14 +669,13 @@ def fn_surface(case, ctx):
                 return
             if not compare_refinement(ctx, nxt, exp.V, exp.F, len(cur.V), what + f" vs its documented decomposition {steps}"):
                 return
-            if name == "sub6":
-                # docstring: quads are split along the corner-barycentre diagonal, i.e. every triangle contains a face centre.
-                # Outside the registered statement: measured, not asserted.
-                ntri = len(exp.F) // 6 ** 1 if n == 1 else None
-                if n == 1 and ntri:
-                    nb = len(nxt.V) - ntri      # centres are the last ntri vertices of one round
-                    if not all(any(v >= nb for v in f) for f in nxt.F):
-                        ctx.label("sub6:diagonal-is-not-corner-barycentre")
+            if name == "sub6" and n == 1:
+                # docstring: "splitting the quads along the corner-barycenter diagonal", i.e. every triangle would contain a
+                # face centre (the centres are the last |T| vertices of one round). Outside the registered statement
+                # (counts, validity, positions hold either way): measured as a label, not asserted.
+                nb = len(nxt.V) - len(nxt.F) // 6
+                if not all(any(v >= nb for v in f) for f in nxt.F):
+                    ctx.label("sub6:diagonal-is-not-corner-barycentre")
         if not surface_invariants(ctx, V0, F, nxt, flat, what + " [editor state]"):
             return
         cur = nxt
@@ -729,7 +743,6 @@ def fn_ears(case, ctx):
     for k, i in enumerate(ears):
         c = len(V) + k
         Fe += [[F[i][j], F[i][(j + 1) % 3], c] for j in range(3)]
-    pc = Pfx(ctx, "input:") if case["pre"] else ctx
     if not compare_refinement(ctx, SR, Ve, Fe, len(V), what):
         return
     if not surface_invariants(ctx, V0, F, SR, True, what):
